@@ -42,6 +42,8 @@ class LazySeq:
         while True:
             if not it.ctx.decide(I(k) < zint(self.length)):
                 return
+            if k >= 64:
+                raise Unsupported("iteration over a symbolic-length sequence without a loop invariant (64 elements unrolled)")
             yield self.elem(I(k))
             k += 1
 
@@ -445,6 +447,9 @@ def b_list(it, x=None):
 
 
 def b_tuple(it, x=None):
+    if isinstance(x, LazySeq) and not x.tail:
+        # an immutable snapshot of a symbolic-length sequence: the same elements in the same order
+        return LazySeq(x.length, x.elem, x.name)
     return () if x is None else tuple(it.iterate(x))
 
 
@@ -557,9 +562,16 @@ def b_bytearray(it, x=None, *a):
 
 
 def b_sorted(it, x, key=None, reverse=False):
-    items = it.iterate(x)
     if key is not None:
         raise Unsupported("sorted with key")
+    if isinstance(x, list) and any(isinstance(e, Chunk) for e in x):
+        # same assumed contract as list.sort on a symbolic-length list
+        it.ctx.assumed_models.add("list.sort(reverse=r) of a symbolic-length list: the list becomes spec_sorted(list, r) "
+                                  "(a sorted rearrangement; with distinct names reverse=True is the exact reverse)")
+        t = ufun('spec_sorted', JsonSort, z3.BoolSort(), JsonSort)(list_term(x), zbool(reverse) if not isinstance(reverse, bool)
+                                                                  else z3.BoolVal(reverse))
+        return [Chunk(t)]
+    items = it.iterate(x)
     if is_concrete(items) and isinstance(reverse, bool):
         try:
             return sorted(items, reverse=reverse)
@@ -1068,6 +1080,19 @@ def call_native(it, fn, args, kwargs):
             model = None
     if model is not None:
         return model(it, *args, **kwargs)
+    import functools as _ft
+    if isinstance(fn, _ft._lru_cache_wrapper) and getattr(fn, '__wrapped__', None) is not None:
+        # a memoised repository function: the first call computes, later calls with equal arguments return the remembered
+        # result.  Transparent for a function of its arguments alone; if the body consults the environment (files, imports,
+        # plugins) a later call can return a result that no longer matches the environment: history-dependent output.
+        before = (len(ctx.fs), len(ctx.imports), len(ctx.plugin_calls))
+        try:
+            return it.call(fn.__wrapped__, args, kwargs)
+        finally:
+            if (len(ctx.fs), len(ctx.imports), len(ctx.plugin_calls)) != before:
+                ctx.fail("frame.shared_state", "memoised function %s.%s reads the environment: its remembered result is returned "
+                         "even after the environment has changed" % (getattr(fn, '__module__', ''), getattr(fn, '__name__', '')),
+                         kind='frame')
     # unbound method descriptor of a built-in type applied to a value: str.upper(s)
     if isinstance(fn, (types.MethodDescriptorType, types.WrapperDescriptorType)) and args:
         return call_method(it, args[0], fn.__name__, args[1:], kwargs)
